@@ -6,10 +6,13 @@ import (
 	"os"
 	"os/exec"
 	"path/filepath"
+	"runtime"
+	"sort"
 	"strings"
 	"sync"
 
 	"github.com/akalin/gopar/par1"
+	"github.com/klauspost/cpuid/v2"
 	"github.com/akalin/gopar/par2"
 
 	"verifharness/internal/core"
@@ -46,7 +49,157 @@ func (c *c17) Cases(tier string, seed int64) []core.Case {
 		}
 		cs = append(cs, core.MkCase(fmt.Sprintf("%s-%d", f, i), c17Params{r.Int63(), f}))
 	}
+	for i := 0; i < map[string]int{"quick": 3, "thorough": 40}[tier]; i++ {
+		cs = append(cs, core.MkCase(fmt.Sprintf("par2-defaults-%d", i), c17Params{r.Int63(), "par2-defaults"}))
+		cs = append(cs, core.MkCase(fmt.Sprintf("par1-defaults-%d", i), c17Params{r.Int63(), "par1-defaults"}))
+		cs = append(cs, core.MkCase(fmt.Sprintf("par2-empty-file-%d", i), c17Params{r.Int63(), "par2-empty-file"}))
+	}
 	return cs
+}
+
+// runOutcomes: Create is run with options left at their documented defaults
+// under different numbers of processors, and with an input the format may
+// refuse (an empty file) in every listing order; every run must have the
+// same outcome: the same error class (refused) or the same bytes.
+func (c *c17) runOutcomes(r *core.R, p c17Params, rng *rand.Rand) {
+	root, err := os.MkdirTemp("", "c17o-")
+	if err != nil {
+		r.Inconclusive("tempdir: %v", err)
+		return
+	}
+	defer os.RemoveAll(root)
+	par1Mode := p.Fmt == "par1-defaults"
+	ext := map[bool]string{true: ".par", false: ".par2"}[par1Mode]
+	var set scen.Set
+	nf := 3 + rng.Intn(3)
+	for i := 0; i < nf; i++ {
+		set.Files = append(set.Files, scen.File{Name: fmt.Sprintf("in%d.dat", i), Data: scen.GenData(rng, "random", 1500+rng.Intn(7000), 4)})
+	}
+	emptyAt := -1
+	if p.Fmt == "par2-empty-file" {
+		emptyAt = rng.Intn(nf - 2) // at least two files are listed after it
+		set.Files[emptyAt].Data = []byte{}
+	}
+	type variant struct {
+		name   string
+		procs  int
+		cores  int // cpuid's physical core count; -1 = leave
+		order  []int
+		opts2  par2.CreateOptions
+		opts1  par1.CreateOptions
+		cliEnv string // "" = library
+	}
+	ident := make([]int, nf)
+	for i := range ident {
+		ident[i] = i
+	}
+	var variants []variant
+	if emptyAt >= 0 {
+		o2 := par2.CreateOptions{SliceByteCount: 400, NumParityShards: 2, NumGoroutines: 2}
+		variants = append(variants, variant{name: "listed-in-order", procs: 0, cores: -1, order: ident, opts2: o2})
+		for k := 0; k < 10; k++ {
+			variants = append(variants, variant{name: fmt.Sprintf("permutation-%d", k), cores: -1, order: rng.Perm(nf), opts2: o2})
+		}
+		rev := make([]int, nf)
+		for i := range rev {
+			rev[i] = nf - 1 - i
+		}
+		variants = append(variants, variant{name: "reversed", cores: -1, order: rev, opts2: o2})
+	} else {
+		variants = append(variants, variant{name: "explicit-documented-defaults", cores: -1, order: ident,
+			opts2: par2.CreateOptions{SliceByteCount: par2.SliceByteCountDefault, NumParityShards: par2.NumParityShardsDefault, NumGoroutines: 1},
+			opts1: par1.CreateOptions{NumParityFiles: par1.NumParityFilesDefault}})
+		for _, pc := range [][2]int{{1, -1}, {2, -1}, {3, 0}, {5, 1}, {16, 2}, {7, 1024}, {4, 4}, {6, 3}} {
+			variants = append(variants, variant{name: fmt.Sprintf("zero-options,GOMAXPROCS=%d,cores=%d", pc[0], pc[1]), procs: pc[0], cores: pc[1], order: ident})
+		}
+		if os.Getenv("VW_PAR_EXE") != "" {
+			for _, gm := range []string{"1", "3", "8"} {
+				variants = append(variants, variant{name: "cli-no-flags,GOMAXPROCS=" + gm, cores: -1, order: ident, cliEnv: gm})
+			}
+		}
+	}
+	inputs := map[string]bool{}
+	for _, f := range set.Files {
+		inputs[f.Name] = true
+	}
+	oldCores := cpuid.CPU.PhysicalCores
+	oldProcs := runtime.GOMAXPROCS(0)
+	defer func() { cpuid.CPU.PhysicalCores = oldCores; runtime.GOMAXPROCS(oldProcs) }()
+	type outcome struct {
+		refused bool
+		files   map[string]string
+	}
+	var ref *outcome
+	var refName string
+	for i, v := range variants {
+		dir := filepath.Join(root, fmt.Sprintf("v%d", i), "the set")
+		if _, err := set.Materialize(dir); err != nil {
+			r.Inconclusive("materialize: %v", err)
+			return
+		}
+		var paths []string
+		for _, j := range v.order {
+			paths = append(paths, filepath.Join(dir, set.Files[j].Name))
+		}
+		idx := filepath.Join(dir, "arch"+ext)
+		var cerr error
+		core.Note("C17 outcomes %s variant=%s", p.Fmt, v.name)
+		if v.cliEnv != "" {
+			cmd := exec.Command(os.Getenv("VW_PAR_EXE"), append([]string{"c", idx}, paths...)...)
+			cmd.Env = append(os.Environ(), "GOMAXPROCS="+v.cliEnv)
+			if out, err := cmd.CombinedOutput(); err != nil {
+				cerr = fmt.Errorf("%v: %s", err, tailStr(string(out), 300))
+			}
+		} else {
+			if v.procs > 0 {
+				runtime.GOMAXPROCS(v.procs)
+			}
+			if v.cores >= 0 {
+				cpuid.CPU.PhysicalCores = v.cores
+			}
+			pi := core.Protect(func() {
+				if par1Mode {
+					cerr = par1.Create(idx, paths, v.opts1)
+				} else {
+					cerr = par2.Create(idx, paths, v.opts2)
+				}
+			})
+			cpuid.CPU.PhysicalCores = oldCores
+			runtime.GOMAXPROCS(oldProcs)
+			if pi != nil {
+				r.Violate("create-panic|"+pi.Frame, "%s variant %s: %s", p.Fmt, v.name, pi.Msg)
+				continue
+			}
+		}
+		o := &outcome{refused: cerr != nil}
+		if cerr == nil {
+			o.files = createdFiles(dir, inputs)
+		}
+		r.Count("variant_runs", 1)
+		r.Key("%s|%s|f=%d", p.Fmt, v.name, nf)
+		if ref == nil {
+			ref, refName = o, v.name
+			if cerr != nil {
+				r.Count("reference_run_refused", 1)
+				if emptyAt < 0 {
+					r.Violate("create-failed|lib|defaults", "%s variant %s: %v", p.Fmt, v.name, cerr)
+					return
+				}
+			}
+			continue
+		}
+		switch {
+		case o.refused != ref.refused:
+			r.Violate("create-output-varies|outcome", "%s: variant %q refused=%v (%v) but %q refused=%v; the inputs are the same files", p.Fmt, v.name, o.refused, cerr, refName, ref.refused)
+		case !o.refused:
+			if d := scen.DiffSnap(ref.files, o.files); len(d) > 0 {
+				sort.Strings(d)
+				r.Violate("create-output-varies|"+variantClass(v.name), "%s: Create output under %q differs from %q (same inputs, slice size and block count): %v", p.Fmt, v.name, refName, d)
+			}
+		}
+		os.RemoveAll(filepath.Join(root, fmt.Sprintf("v%d", i)))
+	}
+	r.Sample(map[string]interface{}{"mode": p.Fmt, "files": nf, "empty_file_at": emptyAt, "variants": len(variants), "reference_refused": ref != nil && ref.refused})
 }
 
 // createdFiles snapshots everything under dir except the given inputs.
@@ -115,6 +268,10 @@ func (c *c17) Run(cs core.Case) core.Result {
 	core.Decode(cs, &p)
 	r := core.NewR(cs)
 	rng := rand.New(rand.NewSource(p.Seed))
+	if p.Fmt == "par2-defaults" || p.Fmt == "par1-defaults" || p.Fmt == "par2-empty-file" {
+		c.runOutcomes(r, p, rng)
+		return r.Done()
+	}
 	root, err := os.MkdirTemp("", "c17-")
 	if err != nil {
 		r.Inconclusive("tempdir: %v", err)
@@ -410,6 +567,9 @@ func (c *c17) Run(cs core.Case) core.Result {
 func variantClass(n string) string {
 	if i := strings.Index(n, "-"); i > 0 && strings.HasPrefix(n, "repeat") {
 		return "repeat"
+	}
+	if strings.HasPrefix(n, "permutation-") {
+		return "permutation"
 	}
 	return n
 }
